@@ -153,5 +153,114 @@ theorem geometry_from_coords (xa : XA α) (d : Nat) (G : Nat → Axis) (hgeo : g
     rw [hk]
   all_goals (subst hr; cases ht : xa.attrs.tol <;> simp [setTol])
 
+/-- `Field(mesh, nvdim, value=val, vdims=…, dtype=…)` on a value array of the field's shape -/
+theorem fieldOf_ok (xa : XA α) (m : Mesh) (k : Nat) (hs : (valOf xa k).shape = m.n ++ [k])
+    (vd : Option (List String)) (hvs : vdimsSet k xa.vdimsCoord = .ok vd)
+    (hmap : ¬ (k ≠ 1 ∧ k = m.region.dims.length ∧ vd = none)) :
+    ∃ g, fieldOf xa m k = .ok g ∧ g.mesh = m ∧ g.nvdim = k ∧ Agree g.data (valOf xa k) ∧ g.vdims = vd ∧
+      g.dtype = xa.dtype := by
+  obtain ⟨d1, hd1, ha1⟩ := asArray_same (valOf xa k) m.n k hs
+  obtain ⟨d2, hd2, ha2⟩ := asArray_same d1 m.n k (ha1.1.trans hs)
+  refine ⟨{ mesh := m, nvdim := k, data := d2, valid := NDA.const m.n true, vdims := vd,
+            vmap := defaultVmap k m.region.dims vd, unit := none, dtype := xa.dtype }, ?_, rfl, rfl, ha2.trans ha1, rfl, rfl⟩
+  unfold fieldOf
+  rw [hd1]
+  simp only [Except.bind]
+  rw [hd2]
+  simp only []
+  rw [hvs]
+  simp only []
+  rw [if_neg hmap]
+
+theorem defaultVdims_ne_none (k : Nat) (hk : 1 < k) : Fld.defaultVdims k ≠ none := by
+  unfold Fld.defaultVdims
+  have : k ≠ 1 := by omega
+  simp only [this, if_false]
+  split <;> simp
+
+/-- **Import of a hand-built DataArray**: evenly spaced coordinates on distinctly named axes
+(at least two per axis), no `cell`/`pmin`/`pmax`, an integer `nvdim = k ≥ 1`, data of shape
+`(*n)` (scalar) or `(*n, k)` with the `vdims` axis last, labels absent or `k` distinct strings:
+the import succeeds, the mesh spans half a step beyond the outermost coordinates, and every
+value sits at its own cell and component. -/
+theorem import_hand_built_ok (xa : XA α) (d : Nat) (G : Nat → Axis) (hgeo : geo xa = tab d G) (hd : 0 < d)
+    (v0 h : Nat → Rat) (n : Nat → Nat)
+    (hval : ∀ a, a < d → (G a).values = ap (v0 a) (h a) (n a))
+    (hh : ∀ a, a < d → 0 < h a) (hn : ∀ a, a < d → 2 ≤ n a)
+    (hnames : hasDup (tab d fun a => (G a).name) = false)
+    (hcell : xa.attrs.cell = none) (hpmin : xa.attrs.pmin = none) (hpmax : xa.attrs.pmax = none)
+    (k : Nat) (hk : 1 ≤ k) (hnv : xa.attrs.nvdim = some (.int k)) (hvd : 1 < k → "vdims" ∈ xa.dims)
+    (hshape : xa.data.shape = tab d n ++ (if 1 < k then [k] else []))
+    (hlab : ∀ l, xa.vdimsCoord = some l → l.length = k ∧ hasDup l = false) :
+    ∃ g, fromXA xa = .ok g ∧
+      g.mesh.region.pmin = (tab d fun a => v0 a - h a / 2) ∧
+      g.mesh.region.pmax = (tab d fun a => v0 a + ((n a : Rat) - 1) * h a + h a / 2) ∧
+      g.mesh.n = tab d n ∧ g.mesh.region.dims = (tab d fun a => (G a).name) ∧ g.nvdim = k ∧
+      g.data.shape = tab d n ++ [k] ∧
+      (∀ i, inRange (tab d n ++ [k]) i = true → g.data.get i = xa.data.get (if 1 < k then i else i.dropLast)) ∧
+      g.dtype = xa.dtype ∧
+      g.vdims = (match xa.vdimsCoord with | some l => some l | none => Fld.defaultVdims k) := by
+  have hsh : ∀ x ∈ xa.data.shape.dropLast, x ≠ 1 := by
+    intro x hx
+    rw [hshape] at hx
+    have hx' : x ∈ tab d n := by
+      split at hx
+      · rwa [List.dropLast_concat] at hx
+      · rw [List.append_nil] at hx; exact (List.dropLast_sublist _).subset hx
+    obtain ⟨a, ha, rfl⟩ := mem_tab _ _ _ hx'
+    have := hn a ha; omega
+  obtain ⟨m, hm, hp1, hp2, hmn, hdims, -⟩ :=
+    geometry_from_coords xa d G hgeo hd v0 h n hval hh hn hnames hcell hpmin hpmax hsh
+  have hck : checkNvdim xa.attrs.nvdim xa.dims = .ok k := by
+    rw [hnv]
+    unfold checkNvdim
+    have h1 : ¬ ((k : Int) < 1) := by omega
+    have h2 : ¬ (1 < (k : Int) ∧ ¬ xa.dims.contains "vdims" = true) := by
+      rintro ⟨h3, h4⟩
+      exact h4 (List.contains_iff_mem.mpr (hvd (by omega)))
+    simp only [h1, h2, if_false, Int.toNat_natCast]
+  have hvs : (valOf xa k).shape = m.n ++ [k] := by
+    unfold valOf
+    by_cases h1 : k = 1
+    · have h2 : ¬ (1 < k) := by omega
+      simp only [h1, if_true]
+      show xa.data.shape ++ [1] = _
+      rw [hshape, hmn, h1]; simp
+    · have h2 : 1 < k := by omega
+      simp only [h1, if_false]
+      rw [hshape, hmn]; simp only [h2, if_true]
+  have hvset : vdimsSet k xa.vdimsCoord
+      = .ok (match xa.vdimsCoord with | some l => some l | none => Fld.defaultVdims k) := by
+    cases hv : xa.vdimsCoord with
+    | none => rfl
+    | some l =>
+      obtain ⟨hl, hdup⟩ := hlab l hv
+      cases l with
+      | nil => simp at hl; omega
+      | cons x l' =>
+        unfold vdimsSet
+        simp only [hl, ne_eq, not_true_eq_false, if_false, hdup, Bool.false_eq_true]
+  have hmap : ¬ (k ≠ 1 ∧ k = m.region.dims.length ∧
+      (match xa.vdimsCoord with | some l => some l | none => Fld.defaultVdims k) = none) := by
+    rintro ⟨h1, -, h3⟩
+    cases hv : xa.vdimsCoord with
+    | some l => rw [hv] at h3; cases h3
+    | none => rw [hv] at h3; exact defaultVdims_ne_none k (by omega) h3
+  obtain ⟨g, hg, hgm, hgk, hga, hgv, hgt⟩ := fieldOf_ok xa m k hvs _ hvset hmap
+  refine ⟨g, ?_, by rw [hgm]; exact hp1, by rw [hgm]; exact hp2, by rw [hgm]; exact hmn, by rw [hgm]; exact hdims,
+    hgk, by rw [hga.1, hvs, hmn], ?_, hgt, hgv⟩
+  · rw [fromXA_eq, hck]
+    simp only [Except.bind]
+    rw [hm]
+    exact hg
+  · intro i hi
+    rw [hga.2 i (by rw [hga.1, hvs, hmn]; exact hi)]
+    unfold valOf
+    by_cases h1 : k = 1
+    · subst h1
+      simp
+    · have h2 : 1 < k := by omega
+      simp only [h1, if_false, h2, if_true]
+
 end
 end DFV.C17
